@@ -23,6 +23,7 @@ Definition shipped_sites : list tag_site := [
   S_ "TaskExpression" "redun.expression:TaskExpression._calc_hash" FStruct "TaskExpression";
   S_ "SimpleExpression" "redun.expression:SimpleExpression._calc_hash" FStruct "SimpleExpression";
   S_ "SchedulerExpression" "redun.expression:SchedulerExpression._calc_hash" FStruct "SchedulerExpression";
+  S_ "(field) export option names" "redun.expression:SchedulerExpression._calc_hash" FUntagged "list(sorted(self._export_options))";
   S_ "ValueExpression" "redun.expression:ValueExpression._calc_hash" FStruct "ValueExpression";
   S_ "File" "redun.file:LocalFileSystem.get_hash" FStruct "File";
   S_ "File" "redun.file:FsspecFileSystem.get_hash" FStruct "File";
